@@ -149,7 +149,7 @@ func newWal(db string, forceSync bool) (*wal, error) {
 	}
 	verifWalOpened(file, db)
 	return &wal{
-		reader:    file,
+		reader:    verifWalWrap(file),
 		forceSync: forceSync,
 	}, nil
 }
